@@ -13,16 +13,36 @@ from .model import repo_root
 from .report import VERIF
 
 
+LAST = {}
+
+
 def load_catalog():
     path = os.path.join(VERIF, 'variants', 'catalog.json')
-    if not os.path.exists(path):
-        return []
-    with open(path) as fh:
-        return json.load(fh)
+    cat = []
+    if os.path.exists(path):
+        with open(path) as fh:
+            cat = json.load(fh)
+    # independently seeded changes kept under /verif/seeded are regression variants too
+    sdir = os.path.join(VERIF, 'seeded')
+    if os.path.isdir(sdir):
+        for d in sorted(os.listdir(sdir)):
+            mp = os.path.join(sdir, d, 'meta.json')
+            pp = os.path.join(sdir, d, 'patch.diff')
+            if os.path.exists(mp) and os.path.exists(pp):
+                with open(mp) as fh:
+                    meta = json.load(fh)
+                props = sorted(meta.get('checks_that_report_it', {}))
+                if props:
+                    cat.append({'id': 'seeded:' + d, 'props': props, 'expect': 'fire', 'patch': pp,
+                                'clauses': {p: p + '-' for p in props}, 'edits': []})
+    return cat
 
 
 def apply_variant(root, v):
     """Apply the textual edits of ``v`` under ``root``; False if an anchor is gone."""
+    if v.get('patch'):
+        r = subprocess.run(['git', 'apply', v['patch']], cwd=root, capture_output=True, text=True)
+        return r.returncode == 0
     for ed in v['edits']:
         p = os.path.join(root, ed['file'])
         if not os.path.exists(p):
@@ -110,6 +130,12 @@ def run(pid=None, jobs=None, verbose=False):
             elif verbose:
                 print(f'liveness: variant {v["id"]} ok ({msg})')
     print(f'liveness: {len(cat)} variants, {dead} failed, {skipped} skipped')
+    LAST.clear()
+    LAST.update({'variants': len(cat), 'fire_variants': sum(1 for v in cat if v['expect'] == 'fire'),
+                 'silent_variants': sum(1 for v in cat if v['expect'] == 'silent'),
+                 'seeded_regressions': sum(1 for v in cat if v['id'].startswith('seeded:')),
+                 'failed': dead, 'skipped_anchor_gone': skipped,
+                 'sample_variants': [v['id'] for v in cat[:12]]})
     if dead:
         print(f'ANALYSIS-ERROR property={pid}: rule-liveness run failed ({dead} variants)')
         return 2
